@@ -45,7 +45,7 @@ TRUSTED_BASE = [
     "extraction: ExtrOcamlBasic only (its Extract Inductive for bool, option, unit, list, prod, sumbool, sumor, sig), no Extract Constant; N/positive/nat/Z stay extracted inductives",
     "OCaml 4.13.1 + zarith (number printing/parsing in ocaml/run_*.ml), ocaml/conv.ml",
     "Rust harness /verif/harness (case parsing, canonical printing), rustc/cargo of the sandbox",
-    "tools/gen_consts.py (regex translator for `pub const` tables) and tools/*.py (generators, diffing, verdict)",
+    "tools/gen_consts.py, tools/gen_consts_all.py (regex translators for `pub const` items), tools/gen_accessors.py (expression translator for the field accessors, when present) and tools/*.py (generators, diffing, verdict)",
     "target assumptions: 64-bit usize, little-endian host for the correspondence runs",
 ]
 
@@ -101,12 +101,19 @@ class Lock:
 # Coq
 # ---------------------------------------------------------------------------
 
+GENERATORS = ["gen_consts.py", "gen_consts_all.py", "gen_accessors.py"]
+
+
 def gen_consts():
-    gc = os.path.join(ROOT, "tools", "gen_consts.py")
-    if os.path.exists(gc):
-        rc, out = sh([sys.executable, gc], cwd=ROOT, timeout=120)
-        return rc == 0, out
-    return True, ""
+    """the translators: regenerate coq/theories/Gen/*.v from the crate's working tree"""
+    allok, outs = True, []
+    for g in GENERATORS:
+        gc = os.path.join(ROOT, "tools", g)
+        if os.path.exists(gc):
+            rc, out = sh([sys.executable, gc], cwd=ROOT, timeout=300)
+            allok = allok and rc == 0
+            outs.append(out)
+    return allok, "\n".join(outs)
 
 
 def coq_files():
